@@ -5,7 +5,8 @@ on the same mini language.
 
 Mini language (one constructor per documented forwarding pattern, DOCUMENTATION.rst "AST resolver"):
   * `Param`     name, type tag (sorted atoms of the annotation, `[]` = no annotation), default tag, kind
-  * `Use`       `kwargs.pop(n, d)`, `kwargs.get(n, d)`, `super().__init__(p₁..p_k, g₁=.., **kwargs)`
+  * `Use`       `kwargs.pop(n, d)` (as a statement, or — `Use.popIn` — inside the argument list of the forwarding
+                call it follows), `kwargs.get(n, d)`, `super().__init__(p₁..p_k, g₁=.., **kwargs)`
                 (optionally `super(X, self)`), a call of a module-level function / a class
                 (`Target.entry`), of a method of `self` (`Target.selfMeth`), `cls(**kwargs)` inside a
                 classmethod (`Target.clsSelf`), `Cls.factory(**kwargs)` (`Target.classMeth`: a classmethod the
